@@ -201,6 +201,39 @@ func checkC04(r *Run) {
 	exploreSpaces(r, md, []space{{name: "subst2xstructural/msg", gen: unionTrie{st2[:r.pick(1, 4)]}, cfgs: mcf[:1], finalFlags: noMore, beyondErr: 1, beyondOk: 1, split: 1}}, or, nil)
 	c04NonParsing(r)
 	c04Isolation(r)
+	c04Reuse(r)
+}
+
+// c04Reuse: crash-freedom also for calls on objects that were reset and reused (the E2 history search of C12 with the
+// panic part of its oracle reported here).
+func c04Reuse(r *Run) {
+	sub := &Run{Prop: "C12", Tier: r.Tier, Seed: r.Seed, Start: r.Start, Deadline: r.Deadline, Col: newCollector(), St: newStats(), Bounds: map[string]any{}, Workers: r.Workers}
+	checkC12(sub)
+	for _, e := range sub.Col.sorted() {
+		if e.v.Class != "panic" {
+			continue
+		}
+		cs := *e.v.Case
+		cs.Kind = "C04reuse"
+		r.Col.add(&Violation{Property: "C04", Site: e.v.Site, Rule: "no-panic-after-reset-and-reuse", Class: "panic", Detail: e.v.Detail, Case: &cs})
+	}
+	sub.St.Extra = map[string]any{"reuse_histories_states": sub.St.States, "reuse_histories_transitions": sub.St.Transitions}
+	sub.St.Outcomes = map[string]int64{}
+	sub.St.Samples = nil
+	sub.St.CapsHit = nil
+	r.St.merge(sub.St)
+}
+
+func init() {
+	replayers["C04reuse"] = func(prop string, c *Case) []*Violation {
+		var out []*Violation
+		for _, v := range replayers["C12"]("C12", c) {
+			if v.Class == "panic" {
+				out = append(out, &Violation{Property: "C04", Site: v.Site, Rule: "no-panic-after-reset-and-reuse", Class: "panic", Detail: v.Detail, Case: c})
+			}
+		}
+		return out
+	}
 }
 
 func init() {
